@@ -58,6 +58,7 @@ type c20Cfg struct {
 	L   []string            `dials:"list_val"`
 	N   c20Nested           `dials:"nested"`
 	U   uint16              `dials:"u_val"`
+	E   []gen.Elem          `dials:"elems"`
 }
 
 var c20Spec = gen.SpecFromType(reflect.TypeOf(c20Cfg{}))
@@ -188,6 +189,10 @@ func c20Layer(r *fw.Rand, c *gen.Counter, ch *c10Chain, leaves []*gen.LeafRef) *
 		}
 		if r.Chance(55) {
 			l.Vals[lr] = lf.Gen(r, c.Next())
+			if lf.Type.Kind() == reflect.Slice && r.Chance(20) {
+				// explicitly empty: a value, not an absent one
+				l.Vals[lr] = reflect.MakeSlice(lf.Type, 0, 0)
+			}
 		}
 	}
 	return l
